@@ -2,7 +2,7 @@
    the alignment check is exactly the union of the atoms it is abstracted to.  (No RelationAlgebra
    here: that library cannot be imported together with Coq's Bool.) *)
 From Sophia.Common Require Import Prelude.
-From Sophia.C09 Require Import Model.
+From Sophia.C09 Require Import Regex.
 
 Lemma memN_In a l : memN a l = true <-> In a l.
 Proof.
